@@ -8,7 +8,8 @@ Inductive json :=
 | JNull | JBool (b : bool) | JInt (z : Z) | JFloat (id : Z) | JStr (s : pystr)
 | JArr (l : list json) | JObj (m : list (pystr * json)).
 
-(* outcome of json.loads: value | JSONDecodeError | UnicodeDecodeError | anything else (RecursionError...) *)
+(* outcome of json.loads: value | JSONDecodeError | any OTHER ValueError (UnicodeDecodeError on bytes that are no UTF-8; the interpreter's
+   integer string conversion limit on a number of more than 4300 digits) | anything else (RecursionError...) *)
 Inductive jres := JOk (j : json) | JDecodeError | JUnicodeError | JOtherError.
 
 Fixpoint jget (m : list (pystr * json)) (k : pystr) : option json :=
